@@ -26,6 +26,7 @@ def gen(prefix, body, out, extra_imports=''):
     os.system('gofmt -w ' + out)
 
 gen('c11', 'c11_body.go.txt', '/verif/bounded/wmpt/C11_commit_gc_test.go')
+gen('c09', 'c09_body.go.txt', '/verif/bounded/wmpt/C09_weights_test.go')
 if os.path.exists(os.path.join(here, 'c13_body.go.txt')):
     gen('c13', 'c13_body.go.txt', '/verif/bounded/wmpt/C13_rollback_test.go')
 if os.path.exists(os.path.join(here, 'c12_body.go.txt')):
